@@ -2,11 +2,11 @@ from cone_common import *
 LEVEL = "other"
 MANIFEST = dict(
     category="other",
-    text="Flags and tightness through the same descent contract as C05 (a cell is pushed full only when its centre distance is <= min = shs(radius - cell size), 0 when the radius is below the cell size; nothing is pushed beyond max = shs(min(radius + cell size, pi))), proved for depth differences 0..2 over all distance/threshold assignments; threshold lemma searched; packedness is the pack contract of C15 (bounded); 'radius >= pi gives 12 full base cells' is NOT decided (the real builder's Vec path did not finish in CBMC); geometric meaning (cell entirely inside the cone) rests on the assumed lemma G1.",
+    text="Flags and tightness through the same descent contract as C05 (a cell is pushed full only when its centre distance is <= min = shs(radius - cell size), 0 when the radius is below the cell size; nothing is pushed beyond max = shs(min(radius + cell size, pi))), proved for depth differences 0..2 over all distance/threshold assignments; threshold lemma searched; packedness is the pack contract of C15 (bounded); 'radius >= pi gives 12 full base cells' is proved at depths 0, 3, 29 for every radius >= pi with the builder as contract; geometric meaning (cell entirely inside the cone) rests on the assumed lemma G1.",
     note="Bounded and conditional as C05; all-sky case and packing of the final result not decided here.",
     technique="Kani contract-stubbed harness (CBMC) on the real recursive descent with abstract distances; time-bounded refutation search for the float threshold lemma",
 )
 EXPLANATION = "Same units as C05, read for the flag/tightness side."
-ASSUMPTIONS = ["G1 (cell within its largest centre-to-vertex distance of its centre): assumed", "radius >= pi => 12 full base cells: not decided", "to_bmoc_packing = pack (C15 bounded contract)"]
+ASSUMPTIONS = ["G1 (cell within its largest centre-to-vertex distance of its centre): assumed", "to_bmoc_packing = pack (C15 bounded contract)"]
 def units():
-    return recur_units() + [threshold_unit()]
+    return recur_units() + [threshold_unit(), full_flag_unit()] + allsky_units()
